@@ -644,11 +644,63 @@ func judgeRun(c *Case, specs map[string]*TargetSpec, run int, res *runResult, vi
 		if got == "" {
 			got = "."
 		}
+		// the side conditions of the allowed shapes (DESIGN.md §4), judged on the implementation: nothing iff the first
+		// failed dependency failed for another reason than being missing or cyclic; a lone failed iff it is missing
+		// or cyclic, or the target's own up-to-date check failed; otherwise up-to-date or evaluating+completion
+		{
+			want := ""
+			switch classOf(ds.String()) {
+			case "first-x":
+				want = "nothing"
+				if seqs[l] != "" {
+					viol("side-condition", fmt.Sprintf("%s reported %q although its first failed dependency failed for a reason other than missing/cyclic", l, seqs[l]), run)
+				}
+			case "first-m", "first-c":
+				want = "lone failed"
+				if seqs[l] != "F" {
+					viol("side-condition", fmt.Sprintf("%s reported %q, its first failed dependency is missing or cyclic", l, seqs[l]), run)
+				}
+			default:
+				if f.UpToDateErr {
+					want = "lone failed"
+					if seqs[l] != "F" {
+						viol("side-condition", fmt.Sprintf("%s reported %q although its up-to-date check failed", l, seqs[l]), run)
+					}
+				} else if seqs[l] != "U" && seqs[l] != "ES" && seqs[l] != "EF" {
+					viol("side-condition", fmt.Sprintf("%s reported %q although its dependencies succeeded and its up-to-date check worked", l, seqs[l]), run)
+				}
+			}
+			_ = want
+		}
 		stream := "ev.model"
 		if rs.Callback {
 			stream = "ev.callback"
 		}
 		emitC(stream, "evq "+ds.String()+" "+string(flags), got)
+		if !rs.Callback {
+			// the whole sequence the target delivers, output lines included, against the model of Evaluate + line writer
+			var items []string
+			for _, e := range log {
+				if e.label != l {
+					continue
+				}
+				switch e.kind {
+				case 'U', 'E', 'S', 'F':
+					items = append(items, string(e.kind))
+				case 'P':
+					items = append(items, "P"+hx(e.data))
+				}
+			}
+			chunks := "."
+			if t := specs[l]; t != nil && len(t.Chunks) > 0 {
+				chunks = strings.Join(t.Chunks, ",")
+			}
+			seq := "."
+			if len(items) > 0 {
+				seq = strings.Join(items, ",")
+			}
+			emitC("ev.output", "evo "+ds.String()+" "+string(flags)+" - "+chunks, seq+" -")
+		}
 		count("ev.deps."+classOf(ds.String()), 1)
 	}
 }
@@ -723,7 +775,7 @@ func runInChild(c *Case) {
 func evStreams(r *rng, tier string) {
 	n := 40
 	if tier == "thorough" {
-		n = 900
+		n = 5000
 	}
 	for i := 0; i < n; i++ {
 		c := genCase(r)
